@@ -6,6 +6,7 @@ import (
 	"flag"
 	"fmt"
 	"os"
+	"time"
 
 	"verifharness/vt"
 )
@@ -75,7 +76,27 @@ func main() {
 	}
 	w := vt.NewWriter(*out, *prop, *shards)
 	c := &ctx{w: w, r: vt.NewRng(*seed), tier: *tier, n: *n, cfg: *cfg, extra: *extra}
-	f(c)
+	before, berr := battery()
+	// a recording takes seconds; one that has not ended after a quarter of an hour (thorough: an hour) contains a
+	// library call that does not return. That is an observation about the code: it is logged as an event every trace
+	// specification rejects, and the process ends.
+	limit := 900 * time.Second
+	if *tier == "thorough" {
+		limit = 3600 * time.Second
+	}
+	done := make(chan struct{})
+	go func() { f(c); close(done) }()
+	select {
+	case <-done:
+	case <-time.After(limit):
+		c.abandon(vt.Ev{"op": "hang", "msg": "the recording did not end within the limit: a library call does not return"})
+	}
+	// whatever the recording did, it must not have left anything behind in the library's package-level state
+	after, aerr := battery()
+	if before != after || berr != nil || aerr != nil {
+		c.w.Emit(vt.Ev{"op": "globalstate", "cfg": c.cfg, "before": before, "after": after, "errbefore": fmt.Sprint(berr), "errafter": fmt.Sprint(aerr),
+			"msg": "fixed calls on fixed inputs / exported values differ before and after the recording: the library's package-level state was modified"})
+	}
 	w.Close()
 	fmt.Printf("recorded %d events\n", w.N)
 }
